@@ -70,26 +70,22 @@ func (s *seriesIt) Next() bool {
 }
 
 func (s *seriesIt) Seek(t int64) bool {
-	l := 0
-	u := len(s.samples)
-	idx := int(0)
-	if t <= s.samples[0].TimestampMs {
-		s.idx = 0
-		return true
+	// chunkenc.Iterator contract: advance to the first sample with timestamp >= t,
+	// never moving backwards; report false when there is none.
+	l := s.idx
+	if l < 0 {
+		l = 0
 	}
+	u := len(s.samples)
 	for u > l {
-		idx = (u + l) / 2
-		if s.samples[idx].TimestampMs == t {
-			l = idx
-			break
-		}
+		idx := (u + l) / 2
 		if s.samples[idx].TimestampMs < t {
 			l = idx + 1
 			continue
 		}
 		u = idx
 	}
-	s.idx = idx
+	s.idx = l
 	return s.idx < len(s.samples)
 }
 
